@@ -232,7 +232,7 @@ def run(prog: Program) -> Results:
         if not (l_ and d_):
             res.unclass(f"{f.key}: layer list / selector depth variables not found (via _collect_scope_layers / _split_scope_npath)")
             continue
-        want = {pat.format(l=l_, d=d_)}
+        want = {pat.format(l=l_, d=d_), f"{l_}[-{d_}]", f"len({l_}) - {d_}"}  # either spelling of "counted from the end"
         r1.instances += 1
         t = norm(f.node)
         ok = any(w in t for w in want)
@@ -318,6 +318,7 @@ def run(prog: Program) -> Results:
     RL, RD, _t = scope_creation_parts(rv.node)
     RL = RL or "layers"
     ridx = {norm(d.targets[0]) for d in ast.walk(rv.node) if isinstance(d, ast.Assign) and norm(d.value) == f"len({RL}) - {RD}"}
+    ridx = ridx | {f"-{RD}"}  # `layers[-depth]` addresses the same layer as `layers[len(layers) - depth]`
     tlayer = {norm(d.targets[0]) for d in ast.walk(rv.node) if isinstance(d, ast.Assign) and isinstance(d.value, ast.Subscript)
               and norm(d.value.value) == RL and norm(d.value.slice) in ridx}
     def _pruned_index(n):
